@@ -202,3 +202,16 @@ Fixpoint merge_blocks (cs : crits) (blocks : list (list minput)) (a : counters) 
   | b :: r => let '(o, a1) := merge cs b a in
               let '(os, a2) := merge_blocks cs r a1 in (o :: os, a2)
   end.
+
+(* ---- vocabulary of the merge_all statements ---- *)
+(* what merge_all hands to merge(): the whole table in merge_order *)
+Definition merge_inputs (order : list okey) (st : ist) : list minput :=
+  flat_map (fun o => match minput_of_row (o_row o) with Some i => [i] | None => [] end)
+           (sort_rows (directed order false) (map (fun r => mkORow r [] [] 0) (s_rows st))).
+
+(* one level-1 relation (merged output, member) per member; the members' ids *)
+Definition member_rels (outs : list mout) : list rel :=
+  flat_map (fun o => match o with OMerged id _ _ ch => map (fun k => mkRel id (mi_id k) 1) ch | OSingle _ => [] end) outs.
+Definition member_ids (outs : list mout) : list str :=
+  flat_map (fun o => match o with OMerged _ _ _ ch => map mi_id ch | OSingle _ => [] end) outs.
+
